@@ -102,17 +102,22 @@ Lemma sqrt3_pos : 0 < sqrt 3. Proof. apply sqrt_lt_R0. lra. Qed.
 
 Ltac posdiag := unfold upper_posdiag, upper; cbn [m00 m01 m02 m10 m11 m12 m20 m21 m22]; repeat split; try reflexivity.
 
-Theorem conforming_in_span k c : In k [1; 2; 3; 4; 5; 6; 7]%nat -> valid_cell c -> conforming k c ->
-  exists cs, laue_form_b_mat c = lincomb cs (map toRm (b_basis k)).
+Lemma upper_in_span (B : M3) : upper B -> exists cs, B = lincomb cs (map toRm (b_basis 1)).
 Proof.
-  intros Hk Hc Hcf. pose proof Hc as (Ha & Hb & Hcc & Hal & Hbe & Hga & Hgr).
+  intros [U1 [U2 U3]]. cbn [b_basis map]. rewrite !toRm_E; cbn [Nat.eqb andb].
+  exists [m00 B; m01 B; m02 B; m11 B; m12 B; m22 B]. destruct B as [b00 b01 b02 b10 b11 b12 b20 b21 b22].
+  cbn [m00 m01 m02 m10 m11 m12 m20 m21 m22] in *. subst.
+  cbv beta iota delta [lincomb madd mscale mZ mI m00 m01 m02 m10 m11 m12 m20 m21 m22]. f_equal; ring.
+Qed.
+Lemma span_tric c : valid_cell c -> conforming 1 c -> exists cs, laue_form_b_mat c = lincomb cs (map toRm (b_basis 1)).
+Proof. intros Hc _. apply upper_in_span. exact (proj1 (laue_B_upper_posdiag c Hc)). Qed.
+
+Lemma span_mono c : valid_cell c -> conforming 2 c -> exists cs, laue_form_b_mat c = lincomb cs (map toRm (b_basis 2)).
+Proof.
+  intros Hc Hcf. pose proof Hc as (Ha & Hb & Hcc & Hal & Hbe & Hga & Hgr).
   destruct c as [a b cc al be ga]. cbn [c0 c1 c2 c3 c4 c5] in *.
-  cbn [In] in Hk. destruct Hk as [<-|[<-|[<-|[<-|[<-|[<-|[<-|[]]]]]]]]; cbn [conforming b_basis map c0 c1 c2 c3 c4 c5] in *; rewrite ?toRm_E, ?toRm_M1hex, ?toRm_qmadd, ?toRm_E, ?toRm_I; cbn [Nat.eqb andb].
-  - (* triclinic: any upper triangular matrix *)
-    destruct (laue_B_upper_posdiag _ Hc) as [[U1 [U2 U3]] _]. set (B := laue_form_b_mat _) in *.
-    exists [m00 B; m01 B; m02 B; m11 B; m12 B; m22 B]. destruct B as [b00 b01 b02 b10 b11 b12 b20 b21 b22]. cbn in *. subst.
-    unfold lincomb, madd, mscale, mZ; cbn. f_equal; ring.
-  - (* monoclinic, b unique *)
+  cbn [conforming b_basis map c0 c1 c2 c3 c4 c5] in *; rewrite ?toRm_E, ?toRm_M1hex, ?toRm_qmadd, ?toRm_E, ?toRm_I; cbn [Nat.eqb andb].
+  (* monoclinic, b unique *)
     destruct Hcf as [E1 E2]. subst al ga.
     assert (Sb : 0 < sin (rad be)) by (pose proof PI_RGT_0; apply sin_gt_0; unfold rad; [apply Rdiv_lt_0_compat; nra | apply (Rmult_lt_reg_r 180); [lra|]; unfold Rdiv; rewrite Rmult_assoc, Rinv_l, Rmult_1_r by lra; nra]).
     pose proof (sin2_cos2 (rad be)) as SC. unfold Rsqr in SC. set (sb := sin (rad be)) in *. set (cb := cos (rad be)) in *.
@@ -123,20 +128,41 @@ Proof.
       - unfold B', metric; cbv zeta; cbn [c0 c1 c2 c3 c4 c5]. rewrite cos_rad_90. fold cb. unfold mmul, mtrans, mI; cbn.
         clear - SC Ha Hb Hcc Sb. clearbody sb cb.
         f_equal; (field_simplify_eq; [try nsatz_R | repeat split; lra]). }
-    rewrite E. exists [1 / (a * sb); - cb / (cc * sb); 1 / b; 1 / cc]. unfold B', lincomb, madd, mscale, mZ; cbn. f_equal; ring.
-  - (* orthorhombic *)
+    rewrite E. exists [1 / (a * sb); - cb / (cc * sb); 1 / b; 1 / cc]. unfold B'; cbv beta iota delta [lincomb madd mscale mZ mI m00 m01 m02 m10 m11 m12 m20 m21 m22]; f_equal; ring.
+Qed.
+
+Lemma span_orth c : valid_cell c -> conforming 3 c -> exists cs, laue_form_b_mat c = lincomb cs (map toRm (b_basis 3)).
+Proof.
+  intros Hc Hcf. pose proof Hc as (Ha & Hb & Hcc & Hal & Hbe & Hga & Hgr).
+  destruct c as [a b cc al be ga]. cbn [c0 c1 c2 c3 c4 c5] in *.
+  cbn [conforming b_basis map c0 c1 c2 c3 c4 c5] in *; rewrite ?toRm_E, ?toRm_M1hex, ?toRm_qmadd, ?toRm_E, ?toRm_I; cbn [Nat.eqb andb].
+  (* orthorhombic *)
     destruct Hcf as (E1 & E2 & E3). subst al be ga. set (B' := mkM3 (1 / a) 0 0 0 (1 / b) 0 0 0 (1 / cc)).
     assert (E : laue_form_b_mat (mkV6 a b cc 90 90 90) = B').
     { apply B_from_candidate; [exact Hc | unfold B'; posdiag; apply Rdiv_lt_0_compat; lra |].
       unfold B', metric; cbv zeta; cbn [c0 c1 c2 c3 c4 c5]. rewrite cos_rad_90. unfold mmul, mtrans, mI; cbn. f_equal; field; lra. }
-    rewrite E. exists [1 / a; 1 / b; 1 / cc]. unfold B', lincomb, madd, mscale, mZ; cbn. f_equal; ring.
-  - (* tetragonal *)
+    rewrite E. exists [1 / a; 1 / b; 1 / cc]. unfold B'; cbv beta iota delta [lincomb madd mscale mZ mI m00 m01 m02 m10 m11 m12 m20 m21 m22]; f_equal; ring.
+Qed.
+
+Lemma span_tetr c : valid_cell c -> conforming 4 c -> exists cs, laue_form_b_mat c = lincomb cs (map toRm (b_basis 4)).
+Proof.
+  intros Hc Hcf. pose proof Hc as (Ha & Hb & Hcc & Hal & Hbe & Hga & Hgr).
+  destruct c as [a b cc al be ga]. cbn [c0 c1 c2 c3 c4 c5] in *.
+  cbn [conforming b_basis map c0 c1 c2 c3 c4 c5] in *; rewrite ?toRm_E, ?toRm_M1hex, ?toRm_qmadd, ?toRm_E, ?toRm_I; cbn [Nat.eqb andb].
+  (* tetragonal *)
     destruct Hcf as (E0 & E1 & E2 & E3). subst b al be ga. set (B' := mkM3 (1 / a) 0 0 0 (1 / a) 0 0 0 (1 / cc)).
     assert (E : laue_form_b_mat (mkV6 a a cc 90 90 90) = B').
     { apply B_from_candidate; [exact Hc | unfold B'; posdiag; apply Rdiv_lt_0_compat; lra |].
       unfold B', metric; cbv zeta; cbn [c0 c1 c2 c3 c4 c5]. rewrite cos_rad_90. unfold mmul, mtrans, mI; cbn. f_equal; field; lra. }
-    rewrite E. exists [1 / a; 1 / cc]. unfold B', lincomb, madd, mscale, mZ; cbn. f_equal; ring.
-  - (* trigonal, hexagonal axes *)
+    rewrite E. exists [1 / a; 1 / cc]. unfold B'; cbv beta iota delta [lincomb madd mscale mZ mI m00 m01 m02 m10 m11 m12 m20 m21 m22]; f_equal; ring.
+Qed.
+
+Lemma span_trig c : valid_cell c -> conforming 5 c -> exists cs, laue_form_b_mat c = lincomb cs (map toRm (b_basis 5)).
+Proof.
+  intros Hc Hcf. pose proof Hc as (Ha & Hb & Hcc & Hal & Hbe & Hga & Hgr).
+  destruct c as [a b cc al be ga]. cbn [c0 c1 c2 c3 c4 c5] in *.
+  cbn [conforming b_basis map c0 c1 c2 c3 c4 c5] in *; rewrite ?toRm_E, ?toRm_M1hex, ?toRm_qmadd, ?toRm_E, ?toRm_I; cbn [Nat.eqb andb].
+  (* trigonal, hexagonal axes *)
     destruct Hcf as (E0 & E1 & E2 & E3). subst b al be ga. pose proof sqrt3_pos as S3. pose proof sqrt3_sq as Q3.
     set (s := 2 / (a * sqrt 3)). set (B' := mkM3 s (s / 2) 0 0 (s * sqrt 3 / 2) 0 0 0 (1 / cc)).
     assert (E : laue_form_b_mat (mkV6 a a cc 90 90 120) = B').
@@ -145,8 +171,15 @@ Proof.
       - unfold B', s, metric; cbv zeta; cbn [c0 c1 c2 c3 c4 c5]. rewrite cos_rad_90, cos_rad_120. unfold mmul, mtrans, mI; cbn.
         clear - Ha Hcc S3 Q3. set (r := sqrt 3) in *. clearbody r.
         f_equal; (field_simplify_eq; [try nsatz_R | repeat split; lra]). }
-    rewrite E. exists [s; 1 / cc]. unfold B', lincomb, madd, mscale, mZ; cbn. f_equal; field; lra.
-  - (* hexagonal *)
+    rewrite E. exists [s; 1 / cc]. unfold B'; cbv beta iota delta [lincomb madd mscale mZ mI m00 m01 m02 m10 m11 m12 m20 m21 m22]; f_equal; field; lra.
+Qed.
+
+Lemma span_hexa c : valid_cell c -> conforming 6 c -> exists cs, laue_form_b_mat c = lincomb cs (map toRm (b_basis 6)).
+Proof.
+  intros Hc Hcf. pose proof Hc as (Ha & Hb & Hcc & Hal & Hbe & Hga & Hgr).
+  destruct c as [a b cc al be ga]. cbn [c0 c1 c2 c3 c4 c5] in *.
+  cbn [conforming b_basis map c0 c1 c2 c3 c4 c5] in *; rewrite ?toRm_E, ?toRm_M1hex, ?toRm_qmadd, ?toRm_E, ?toRm_I; cbn [Nat.eqb andb].
+  (* hexagonal *)
     destruct Hcf as (E0 & E1 & E2 & E3). subst b al be ga. pose proof sqrt3_pos as S3. pose proof sqrt3_sq as Q3.
     set (s := 2 / (a * sqrt 3)). set (B' := mkM3 s (s / 2) 0 0 (s * sqrt 3 / 2) 0 0 0 (1 / cc)).
     assert (E : laue_form_b_mat (mkV6 a a cc 90 90 120) = B').
@@ -155,13 +188,34 @@ Proof.
       - unfold B', s, metric; cbv zeta; cbn [c0 c1 c2 c3 c4 c5]. rewrite cos_rad_90, cos_rad_120. unfold mmul, mtrans, mI; cbn.
         clear - Ha Hcc S3 Q3. set (r := sqrt 3) in *. clearbody r.
         f_equal; (field_simplify_eq; [try nsatz_R | repeat split; lra]). }
-    rewrite E. exists [s; 1 / cc]. unfold B', lincomb, madd, mscale, mZ; cbn. f_equal; field; lra.
-  - (* cubic *)
+    rewrite E. exists [s; 1 / cc]. unfold B'; cbv beta iota delta [lincomb madd mscale mZ mI m00 m01 m02 m10 m11 m12 m20 m21 m22]; f_equal; field; lra.
+Qed.
+
+Lemma span_cubi c : valid_cell c -> conforming 7 c -> exists cs, laue_form_b_mat c = lincomb cs (map toRm (b_basis 7)).
+Proof.
+  intros Hc Hcf. pose proof Hc as (Ha & Hb & Hcc & Hal & Hbe & Hga & Hgr).
+  destruct c as [a b cc al be ga]. cbn [c0 c1 c2 c3 c4 c5] in *.
+  cbn [conforming b_basis map c0 c1 c2 c3 c4 c5] in *; rewrite ?toRm_E, ?toRm_M1hex, ?toRm_qmadd, ?toRm_E, ?toRm_I; cbn [Nat.eqb andb].
+  (* cubic *)
     destruct Hcf as (E0 & E00 & E1 & E2 & E3). subst b cc al be ga. set (B' := mkM3 (1 / a) 0 0 0 (1 / a) 0 0 0 (1 / a)).
     assert (E : laue_form_b_mat (mkV6 a a a 90 90 90) = B').
     { apply B_from_candidate; [exact Hc | unfold B'; posdiag; apply Rdiv_lt_0_compat; lra |].
       unfold B', metric; cbv zeta; cbn [c0 c1 c2 c3 c4 c5]. rewrite cos_rad_90. unfold mmul, mtrans, mI; cbn. f_equal; field; lra. }
-    rewrite E. exists (1 / a :: nil). unfold B', lincomb, madd, mscale, mZ, mI; cbn. f_equal; ring.
+    rewrite E. exists (1 / a :: nil). unfold B'; cbv beta iota delta [lincomb madd mscale mZ mI m00 m01 m02 m10 m11 m12 m20 m21 m22]; f_equal; ring.
+
+Qed.
+
+Theorem conforming_in_span k c : In k [1; 2; 3; 4; 5; 6; 7]%nat -> valid_cell c -> conforming k c ->
+  exists cs, laue_form_b_mat c = lincomb cs (map toRm (b_basis k)).
+Proof.
+  intros Hk Hc Hcf. cbn [In] in Hk. destruct Hk as [<-|[<-|[<-|[<-|[<-|[<-|[<-|[]]]]]]]].
+  - apply span_tric; assumption.
+  - apply span_mono; assumption.
+  - apply span_orth; assumption.
+  - apply span_tetr; assumption.
+  - apply span_trig; assumption.
+  - apply span_hexa; assumption.
+  - apply span_cubi; assumption.
 Qed.
 
 (* rot[i].B.perm[i] = B for the B matrix of every conforming cell, every crystal system, every operator *)
